@@ -1598,3 +1598,50 @@ pub fn info_reject(doc: &str) -> Outcome {
     });
     Outcome { observed, expected: "rejected".to_string(), note: String::new() }
 }
+
+// ------------------------------------------------------------------------------------------------
+// C12 / C13: an attribute set through the DOM belongs to its element: it is specified, its prefix resolves in the scope of
+// the element, its declared type applies, and it cannot be attached to a second element
+
+pub const ATTR_OWNER_SCENARIOS: [&str; 4] = ["set_attribute_plain", "set_attribute_prefixed", "set_attribute_tokenized", "attribute_in_use_on_detached_element"];
+
+pub fn dom_attr_owner(scenario: &str) -> Outcome {
+    use xml_dom::{Attr, Document, DocumentMut, Element, ElementMut};
+    let mut expected = String::new();
+    let observed = guard(|| {
+        let (_, doc) = xml_dom::XmlDocument::from_raw("<!DOCTYPE r [<!ATTLIST r t NMTOKENS #IMPLIED>]><r xmlns:p='u' a='2'><s/></r>").unwrap();
+        let r = doc.document_element().unwrap();
+        let describe = |name: &str| -> String {
+            let a = r.get_attribute_node(name).unwrap();
+            let ns = xml_dom::AsExpandedName::as_expanded_name(&a).ok().flatten().and_then(|n| n.2).unwrap_or_default();
+            format!("specified={} value={:?} namespace={:?}", a.specified(), a.value().unwrap_or_default(), ns)
+        };
+        match scenario {
+            "set_attribute_plain" => {
+                r.set_attribute("k", "v").unwrap();
+                expected = "specified=true value=\"v\" namespace=\"\"".to_string();
+                describe("k")
+            }
+            "set_attribute_prefixed" => {
+                r.set_attribute("p:j", "w").unwrap();
+                expected = "specified=true value=\"w\" namespace=\"u\"".to_string();
+                describe("j")
+            }
+            "set_attribute_tokenized" => {
+                r.set_attribute("t", "  x   y ").unwrap();
+                expected = "specified=true value=\"x y\" namespace=\"\"".to_string();
+                describe("t")
+            }
+            _ => {
+                let e1 = doc.create_element("e1").unwrap();
+                let e2 = doc.create_element("e2").unwrap();
+                let at = doc.create_attribute("k").unwrap();
+                let first = e1.set_attribute_node(at.clone()).is_ok();
+                let second = e2.set_attribute_node(at.clone()).is_ok();
+                expected = "first=true second=false e1 has k=true e2 has k=false".to_string();
+                format!("first={} second={} e1 has k={} e2 has k={}", first, second, e1.get_attribute_node("k").is_some(), e2.get_attribute_node("k").is_some())
+            }
+        }
+    });
+    Outcome { observed, expected, note: scenario.to_string() }
+}
